@@ -24,8 +24,8 @@ import (
 //
 //	<id>|<action>,<action>,...
 //
-// actions: ok | et (typed error) | ep (plain error) | pe ps pS pi pn (panic with error, string,
-// Stringer, int, nil dereference) | sl<ms> (sleep, returns early when ctx is cancelled) | sL<ms>
+// actions: ok | et (typed error) | ep (plain error) | pe ps pS pi pn pk pK pm (panic with error, string,
+// Stringer, int, nil dereference, kmipserver.Error, wrapped kmipserver.Error, nil-map write) | sl<ms> (sleep, returns early when ctx is cancelled) | sL<ms>
 // (sleep ignoring ctx) | y<k> (k scheduling points) | pr (read placeholder) | pw (store a fresh
 // placeholder value) | pc (clear) | pg (GetIdOrPlaceholder("")) | cx (return ctx error if cancelled)
 
@@ -116,6 +116,13 @@ func (w *serverWorld) handle(ctx context.Context, p *payloads.ActivateRequestPay
 			panic(stringerVal{"panic(Stringer) in " + id})
 		case a == "pi":
 			panic(42)
+		case a == "pk":
+			panic(kmipserver.Errorf(kmip.ResultReasonPermissionDenied, "panic(kmipserver.Error) in %s", id))
+		case a == "pK":
+			panic(fmt.Errorf("panic(wrapped kmipserver.Error) in %s: %w", id, kmipserver.ErrItemNotFound))
+		case a == "pm":
+			var m map[string]int
+			m[id] = 1 // runtime.Error: assignment to entry in nil map
 		case a == "pn":
 			var np *payloads.ActivateRequestPayload
 			_ = np.UniqueIdentifier
@@ -267,7 +274,7 @@ func itemFails(it ItemSc) bool {
 	}
 	for _, a := range strings.Split(it.Tok, ",") {
 		switch a {
-		case "et", "ep", "pe", "ps", "pS", "pi", "pn":
+		case "et", "ep", "pe", "ps", "pS", "pi", "pn", "pk", "pK", "pm":
 			return true
 		}
 	}
